@@ -160,7 +160,7 @@ def run_sim(ctx: Ctx, init: str, num: int, depth: int, col: Collector, rng, seed
 
 
 def judge(ctx: Ctx, col: Collector):
-    res = casecheck.run_cases("ir/IRProjCases.tla", col.cases, min_per_shard=200)
+    res = casecheck.run_cases("ir/IRProjCases.tla", col.cases, min_per_shard=200, max_per_shard=4000)
     for idx, tail in res.mismatches:
         w = col.witness[idx]
         clause = tail[0]
